@@ -103,6 +103,10 @@ def call_src(kind, xs, fn, par):
         return "(%d *. %s)" % (n, a)
     if fn == "product2":
         return "(%s ** %s)" % (a, o)
+    if fn == "repeat":
+        return "(%s ** %d)" % (a, n)
+    if fn == "repeat_r":
+        return "(%d ** %s)" % (n, a)
     if fn == "power":
         return "(%s ^^ %d)" % (a, n)
     if fn == "join":
@@ -204,7 +208,7 @@ def finding_key(kind, xs, fn, par, alts, st):
         got = rval(st["v"], fn)
         sym = "wrong-kind" if any(flat(a["r"]) == flat(got) for a in alts if a["out"] == "ok") else "wrong-value"
     n, ln = par["n"], len(xs)
-    if fn in ("group_n", "group'_n", "window", "replicate", "replicate_r", "power", "combinations", "flatten_group",
+    if fn in ("group_n", "group'_n", "window", "replicate", "replicate_r", "repeat", "repeat_r", "power", "combinations", "flatten_group",
               "transpose_group"):
         pc = "n=0" if n == 0 else ("n>len" if n > ln else ("n=len" if n == ln else "0<n<len"))
     elif par["f"]:
@@ -238,7 +242,7 @@ def nontrivial(kind, xs, fn, par):
     types, a zero or over-length numeric parameter"""
     vals = [canon_key(e) for e in xs]
     return (len(xs) == 0 or kind != "list" or len(set(vals)) < len(vals) or len(set(e["t"] for e in xs)) > 1
-            or (fn in ("group_n", "group'_n", "window", "replicate", "power", "combinations") and (par["n"] == 0 or par["n"] > len(xs))))
+            or (fn in ("group_n", "group'_n", "window", "replicate", "repeat", "power", "combinations") and (par["n"] == 0 or par["n"] > len(xs))))
 
 
 def evaluate(cases, chunk=80):
@@ -383,7 +387,7 @@ def rnd_case(rng):
         (["sort_cmp"], lambda: dict(PAR0, f=rng.choice(["cmp", "rcmp"]))),
         (["flatten", "each", "count", "any", "all", "enumerate", "sum", "product", "min", "max", "sort", "reverse", "unique",
           "group", "prefixes", "suffixes", "frequencies"], lambda: dict(PAR0)),
-        (["group_n", "group'_n", "window", "replicate", "replicate_r", "flatten_group", "transpose_group"],
+        (["group_n", "group'_n", "window", "replicate", "replicate_r", "repeat", "repeat_r", "flatten_group", "transpose_group"],
          lambda: dict(PAR0, n=rng.choice([0, 1, 2, 3, ln, ln + 1, max(ln - 1, 0)]))),
         (["count_v", "find_v", "find?_v", "locate_v", "locate?_v", "append", "prepend", "pair"],
          lambda: dict(PAR0, v=rng.choice([{"t": "i", "n": 1}, {"t": "i", "n": 3}, {"t": "s", "s": "a"}]))),
